@@ -188,6 +188,39 @@ def check_plate(b, p, key, rng):
                 b.V('C10', 'get_moles', key + (unit, ms.kind),
                     f"{p.name}.get_moles({sname}, {unit!r})[{r},{c}] = {out[1][r, c]!r}, contents give {float(exp):.12g}")
                 break
+    # several substances at once: the answer is the rounded sum, not the sum of rounded parts
+    if len(subs) >= 2:
+        pair = rng.sample(subs, 2)
+        unit = rng.choice(MOL_UNITS)
+        out = b.call(lambda: p.get_moles([W.rsubs[n] for n in pair], unit=unit))
+        b.stats['obs:get_moles_list'] += 1
+        if out[0] != 'ok':
+            b.V('C10', 'observer_raised', key + ('get_moles_list',), f"get_moles({pair}, {unit!r}) raised {out[0]}: {out[1]}")
+        else:
+            mult, _ = M.split_unit(unit)
+            d = u.precision(unit)
+            for (r, c) in cells:
+                exp = sum((mp.well((r, c)).contents.get(n, F(0)) * W.msubs[n].per_amount('mol') for n in pair), F(0)) / mult
+                tol = _round_tol(d) + sum((20 * W.q_amt(n) for n in pair), F(0)) / mult + abs(exp) * F(1, 10 ** 12)
+                if abs(F(float(out[1][r, c])) - exp) > tol:
+                    b.V('C10', 'get_moles', key + (unit, 'list'),
+                        f"{p.name}.get_moles({pair}, {unit!r})[{r},{c}] = {out[1][r, c]!r}, contents give {float(exp):.12g}")
+                    break
+        unit = rng.choice(VOL_UNITS)
+        out = b.call(lambda: p.get_volumes(substance=[W.rsubs[n] for n in pair], unit=unit))
+        b.stats['obs:get_volumes_list'] += 1
+        if out[0] != 'ok':
+            b.V('C10', 'observer_raised', key + ('get_volumes_list',), f"get_volumes({pair}, {unit!r}) raised {out[0]}: {out[1]}")
+        else:
+            mult, _ = M.split_unit(unit)
+            d = u.precision(unit)
+            for (r, c) in cells:
+                exp = sum((mp.well((r, c)).contents.get(n, F(0)) * W.msubs[n].per_amount('L') for n in pair), F(0)) / mult
+                tol = _round_tol(d) + sum((20 * W.q_amt(n) * W.msubs[n].per_amount('L') for n in pair), F(0)) / mult + abs(exp) * F(1, 10 ** 12)
+                if abs(F(float(out[1][r, c])) - exp) > tol:
+                    b.V('C10', 'get_volumes_substance', key + (unit, 'list'),
+                        f"{p.name}.get_volumes({pair}, {unit!r})[{r},{c}] = {out[1][r, c]!r}, contents give {float(exp):.12g}")
+                    break
     # get_substances
     out = b.call(lambda: p.get_substances())
     b.stats['obs:plate_get_substances'] += 1
